@@ -115,6 +115,18 @@ CHECKS = {
         design_ref='DESIGN.md section 9 C01',
         note=BASE_NOTE + 'Partial: see text. float ** float is external. Lean Float is the executable float instance.',
         technique='Lean 4 compile-correctness theorem for expressions over regenerated tables + differential validation'),
+    'C02': dict(
+        category='proof',
+        text='Theorems: compile-time evaluation of INTEGER/LONG constant expressions (every arithmetic, logic and comparison '
+             'operator, unary minus and NOT) yields exactly the cell the machine computes, and gives up exactly when the '
+             'machine traps (overflow, division by zero) -- for all operand values; the value-level peephole rules push+conv, '
+             'push+unary and push+push+binary-op on integral operands preserve the stack for every continuation. The folder '
+             'model and the rules are tied to BinaryOp/UnaryOp.fold and QvmCode.optimize on boundary values and windows. Float '
+             'folding, the jump/halt rules and whole-program lifting are NOT proved: constant expressions over all types and '
+             'whole programs are compiled at levels 0-3 and compared (acceptance, value, type, trace, outcome).',
+        design_ref='DESIGN.md section 9 C02',
+        note=BASE_NOTE + 'Partial: see text.',
+        technique='Lean 4 theorems over an executable folder model + model/implementation correspondence + level-differential runs'),
 }
 
 PENDING = ('not yet decided by the Lean framework in this commit; design in DESIGN.md section 9, implementation order in '
